@@ -23,7 +23,8 @@ Primary(q) == SelectSeq(q, LAMBDA r : ~r.sec)
 (* the abstract observation of TagPipeline, computed from the raw one.  The first sentence of the     *)
 (* statement (no success after an interruption) is about failures at a step of the run, i.e. after     *)
 (* the run announced itself with "unfinished" (crash point "start" is before that).                   *)
-Obs(e) == LET in  == Primary(e["in"])
+Obs(e) == LET all == Primary(e["in"])
+              in  == IF e.no_rejects THEN SelectValid(all) ELSE all     \* --no_rejects: the rejected fragments are not expected
               out == Primary(e.out)
           IN [status      |-> e.status,
               interrupted |-> e.interrupted /\ e.scn.at # "start",
@@ -33,7 +34,7 @@ Obs(e) == LET in  == Primary(e["in"])
               \* an index that belongs to THIS output: present, not older than the BAM, and every placed record is reachable through it
               indexed     |-> e.bai /\ e.index_usable /\ e.index_fresh
                               /\ e.via_index = Cardinality({ k \in DOMAIN e.out : e.out[k].tid >= 0 }),
-              complete    |-> ContainsAll(InKeys(in), OutKeys(in, out)),
+              complete    |-> ContainsAll(InKeys(in), OutKeys(all, out)),
               reheadered  |-> ReadGroupsDeclared(out, e.hdr_rg)]
 
 Verdict(e) == IF e.ev \in {"case", "snap"} THEN TP!C20Clause(Obs(e)) ELSE "unknown_event"
